@@ -76,8 +76,12 @@ def run(ctx: Ctx) -> None:
     calls: list = []
 
     def ge(I_, self_obj, args, kwargs):
-        calls.append(args[0])
-        return [("msg", args[0])]
+        # whatever the order of _get_errors' parameters: the dictionary is the one named d
+        env_ = I_.bind("validator.Validator._get_errors", repo.func("validator.Validator._get_errors"), self_obj, list(args), dict(kwargs))
+        if "d" not in env_:
+            raise AnalysisError("anchor moved: _get_errors has no parameter d")
+        calls.append(env_["d"])
+        return [("msg", env_["d"])]
 
     sv = SObj("Validator", {})
     I3 = e.interp(stubs={"validator.Validator._get_errors": ge, "validator.Validator.get_schema_validator": lambda *a: sv, "validator.Validator.get_versioned_schema": lambda *a: HDict()}, allow_fork=False)
